@@ -386,8 +386,13 @@ def run(ctx: Ctx) -> None:
         hist: list[dict] = []
         opsof: list[list] = []
         proto: list[dict] = []
+        scen_names = scen_names + ["fixed:internalfirst"]      # a mapped output with an internal axis (scenario of MC_MapFixed)
         for sn in scen_names:
-            scen, _ = c03.export_schedules(ctx, sn.split("+")[0], 1)
+            if sn.startswith("fixed:"):
+                from . import c06
+                scen, _, _ = c06.export(ctx, sn.split(":")[1])
+            else:
+                scen, _ = c03.export_schedules(ctx, sn.split("+")[0], 1)
             if sn.endswith("+picker"):
                 scen = json.loads(json.dumps(scen))
                 for f in scen["desc"]["funcs"]:
@@ -410,6 +415,8 @@ def run(ctx: Ctx) -> None:
                 ks = list(range(1, len(ops) + 1))
                 if quick and len(ks) > 26:
                     ks = sorted(rng.sample(ks, 26))
+                if quick and sn.startswith("fixed:"):
+                    ks = sorted(rng.sample(ks, min(9, len(ks))))
                 for k in ks:
                     hist.append(history(scen, pdesc, st, [{"kind": "fs", "k": k}], logdir))
                     opsof.append(ops)
